@@ -9,7 +9,7 @@ run_one() {  # name patch prop
   local name=$1 patch=$2 prop=$3
   local WT=/dev/shm/sens-$$
   git -C /repo worktree add -q --detach "$WT" HEAD || return
-  if git -C "$WT" apply "$patch" 2>/dev/null; then
+  if git -C "$WT" apply "$BASE/$patch" 2>/dev/null; then
     local out rc kind
     out=$(VERIF_REPO="$WT" timeout 1800 /venv/bin/python run.py check "$prop" 2>&1); rc=$?
     kind=$(echo "$out" | grep -m1 "^  kind=" | sed 's/^  kind=\([^ ]*\).*/\1/')
